@@ -210,6 +210,7 @@ def worker(args):
             judge_search(rec, lab, c["search"], dict(c))
         lab.trees.reset()
         return rec.result()
+    prev_questions = []
     for u in range(args["universes"]):
         names = rng.sample(["a", "a-b", "a.b", "a+b", "ab", "b", "a-", "a-b-c"], rng.randint(3, 5))
         if rng.random() < 0.35:
@@ -223,12 +224,20 @@ def worker(args):
             rec.ev()
             case = {"search": s, "ents": ents, "names": names, "only_default": lab.only_default, "uid": uid}
             judge_search(rec, lab, s, case)
+        # the questions of the previous universe once more: the data changed in between, the answer is the one of the data as it is now
+        for e, key in prev_questions:
+            if lab.model.natural(e) is not None:
+                rec.ev()
+                rec.count("get_last_asked_again_after_the_data_changed")
+                judge_get_last(rec, lab, e, key, {"ents": ents, "names": names, "only_default": lab.only_default, "uid": uid, "asked_before": True})
+        prev_questions = []
         for k in range(6):
             e = rng.choice(lab.full)
             x_keys = lab.model.natural(e).keys
             key = rng.choice(x_keys)
             rec.ev()
             judge_get_last(rec, lab, e, key, {"ents": ents, "names": names, "only_default": lab.only_default, "uid": uid})
+            prev_questions.append((e, key))
         if u == 0:
             rec.sample({"entities": ents[:6], "n": len(ents), "search": s})
     lab.trees.reset()
